@@ -120,3 +120,12 @@ def run(res, facts, tier):
     _run_c10_prev_builtin(res, facts, tier)
     from . import c10_builtin
     c10_builtin.run_rule(res, facts, tier)
+
+
+_run_c10_prev_lookup = run
+
+
+def run(res, facts, tier):
+    _run_c10_prev_lookup(res, facts, tier)
+    from . import c10_lookup
+    c10_lookup.run_rule(res, facts, tier)
